@@ -181,3 +181,80 @@ pub fn model_self_test() -> Vec<String> {
     }
     errs
 }
+
+/// Uniform construction of every piece type from a flat list of numbers
+/// (the inverse of `Flat::flat`).
+pub trait Nums: Sized + Clone + std::fmt::Debug + PartialEq + Flat + Send + Sync + 'static {
+    const N: usize;
+    fn from_nums(v: &[f64]) -> Self;
+    fn type_name() -> String;
+}
+macro_rules! nums_poly {
+    ($($t:ident),*) => { $(
+        impl Nums for $t {
+            const N: usize = <$t as PolyK>::DEG + 1;
+            fn from_nums(v: &[f64]) -> Self { <$t as PolyK>::from_coeffs(v) }
+            fn type_name() -> String { stringify!($t).to_string() }
+        }
+    )* };
+}
+nums_poly!(Poly0, Poly1, Poly2, Poly3, Poly4, Poly5, Poly6, Poly7, Poly8);
+impl<T: Nums> Nums for Log<T> {
+    const N: usize = T::N;
+    fn from_nums(v: &[f64]) -> Self {
+        Log(T::from_nums(v))
+    }
+    fn type_name() -> String {
+        format!("Log<{}>", T::type_name())
+    }
+}
+impl<T: Nums> Nums for IntOfLog<T> {
+    const N: usize = T::N + 1;
+    fn from_nums(v: &[f64]) -> Self {
+        IntOfLog { k: v[0], poly: T::from_nums(&v[1..]) }
+    }
+    fn type_name() -> String {
+        format!("IntOfLog<{}>", T::type_name())
+    }
+}
+impl Nums for IntOfLogPoly4 {
+    const N: usize = 6;
+    fn from_nums(v: &[f64]) -> Self {
+        q4(v)
+    }
+    fn type_name() -> String {
+        "IntOfLogPoly4".to_string()
+    }
+}
+impl<T: Nums> Nums for Segment<T> {
+    const N: usize = T::N + 1;
+    fn from_nums(v: &[f64]) -> Self {
+        Segment { end: v[0], poly: T::from_nums(&v[1..]) }
+    }
+    fn type_name() -> String {
+        format!("Segment<{}>", T::type_name())
+    }
+}
+
+/// Build a piecewise function: piece j takes `T::N` numbers from `pool`, rotated by j.
+pub fn build_pw<T: Nums>(ends: &[f64], pool: &[f64]) -> Piecewise<T> {
+    Piecewise {
+        segments: ends
+            .iter()
+            .enumerate()
+            .map(|(j, &e)| {
+                let v: Vec<f64> = (0..T::N).map(|i| pool[(i + j * 3) % pool.len()]).collect();
+                Segment { end: e, poly: T::from_nums(&v) }
+            })
+            .collect(),
+    }
+}
+
+/// value equality of two result numbers: identical bits, or both zero (the sign
+/// of a zero result is not pinned), or both NaN.
+pub fn num_eq(a: f64, b: f64) -> bool {
+    a.to_bits() == b.to_bits() || (a == 0.0 && b == 0.0) || (a.is_nan() && b.is_nan())
+}
+pub fn nums_eq(a: &[f64], b: &[f64]) -> bool {
+    a.len() == b.len() && a.iter().zip(b).all(|(x, y)| num_eq(*x, *y))
+}
